@@ -318,7 +318,8 @@ func c01Enum(yield func(interface{}) bool) {
 	shard, nshards := lib.EnvInt("VERIF_SHARD", 0), lib.EnvInt("VERIF_NSHARDS", 1)
 	ths := thresholdMenu
 	if lib.Tier() != "thorough" {
-		ths = []float64{0.8}
+		// the default, and the one threshold at which "similar enough" is an equality test
+		ths = []float64{0.8, 1.0}
 	}
 	idx := 0
 	for _, th := range ths {
@@ -388,6 +389,6 @@ func TestVerif_C01_Planted(t *testing.T) {
 
 func TestVerif_C01_EveryDoc(t *testing.T) {
 	lib.Run(t, lib.Spec{ID: "C01", Part: "every-document",
-		Rule: "every embedded corpus document planted once in a fixed OOV context at threshold 0.8 (quick) / at each of the 8 menu thresholds (thorough), and planted twice (each copy on lines of its own) at 0.8; documents shorter than q are out of domain",
+		Rule: "every embedded corpus document planted once in a fixed OOV context at thresholds 0.8 and 1.0 (quick) / at each of the 8 menu thresholds (thorough), and planted twice (each copy on lines of its own) at 0.8; documents shorter than q are out of domain",
 		New:  func() interface{} { return &c01Case{} }, Enum: c01Enum, Check: c01EnumCheck, Exhaustive: true})
 }
